@@ -91,3 +91,7 @@ impl<Mutex: StateMutex> CsptpManager<Mutex> {
         self.state.with_ref(|state| state.csptp_state)
     }
 }
+
+#[cfg(feature = "pendulum_project_ntpd_rs_verif")]
+#[path = "/verif/hooks/statime-csptp/manager.rs"]
+pub mod vh_manager;
